@@ -438,7 +438,13 @@ def gen_lease(rng, knobs=None):
     prog = [['start'], ['pump']]
     for _ in range(rng.randint(4, 16)):
         r = rng.random()
-        if r < 0.3:
+        if rng.random() < k.get('p_reconnect', 0.0):
+            # a lease belongs to the connection it arrived on: the client reconnects while it holds an unused, unexpired lease (or
+            # while requests are waiting for one); requests made on the new connection wait for ITS first LEASE
+            prog.append(['reconnect'] if rng.random() < 0.7 else ['reconnect', rng.choice([1, 3, 6, 10])])
+            if rng.random() < 0.5:
+                prog.append(['pump'])
+        elif r < 0.3:
             prog.append(['lease', rng.choice([0, 1, 1, 2, 3, 5]), rng.choice([0, 50, 500, 1000, 1500, 2500, 3000, 86400000, 90061001, 2147483647])])
             prog.append(['pump'] if rng.random() < 0.8 else ['settle'])
         elif r < 0.75:
